@@ -95,7 +95,9 @@ pub fn drain_all(pkg: &rpm::Package) -> String {
     // the standard adapters are repeated `next()` calls by definition: `nth`, `skip`, `step_by`, `last`, `count` on fresh
     // iterators must hand out the corresponding items of the plain iteration (seed C07-9: an `nth` override that left the
     // padding of skipped entries in the stream). Compared only when the plain iteration met no error item.
-    if !runs.iter().any(|(c, _)| *c == 'e') {
+    // … and handed out every header file: an iteration that a trailer ended early is not fused (`next()` after that `None`
+    // goes on reading, Model/FileIter.lean), so "the rest after nth" is not defined by the plain iteration there.
+    if !runs.iter().any(|(c, _)| *c == 'e') && k + 16 == cap {
         if let Some(which) = adapters_differ(pkg, k) {
             return format!("adapters-differ:{}", which);
         }
